@@ -800,6 +800,10 @@ class Scanner:
         args = [self.operand(st, fi, a) for a in t['args']]
         if t.get('fnptr') or not path:
             raise Unsupported('indirect call')
+        # a call into the panic machinery (assert! / debug_assert! / panic! / unreachable!) that is reached is a panic of the scanner
+        dp_ = c.get('def') or ''
+        if 'panicking::' in dp_ or name in ('panic', 'panic_fmt', 'begin_panic', 'panic_explicit', 'unreachable_display', 'assert_failed', 'panic_nounwind'):
+            raise Panic('explicit panic / failed assertion (%s) at line %s' % (t.get('mac') or name, t.get('line')))
         ps = pred_of_callee(path)
         if ps is not None:
             return ('value', ('bool', self.apply_pred(st, ps, args[0])))
